@@ -621,7 +621,24 @@ class StmtMixin(object):
                 if head in self.spec.classes:
                     out['keys'][self.field_info(head, field)[0]] = None
                 else:
-                    # object-restricted: conservatively the whole field of every class having it
+                    # object-restricted: the whole field of the object's class when it can be told
+                    # from the contract (self / typed parameter), else of every class having the field
+                    cls = None
+                    if head == 'self':
+                        tail = c.qual.split(':')[-1]
+                        if '.' in tail:
+                            cls = tail.split('.')[0].lstrip('$')
+                    elif head in c.params and isinstance(c.params[head], TRef):
+                        cls = c.params[head].cls
+                    if cls in self.spec.classes and field != '*' and \
+                            self.spec.field_owner(cls, field) is not None:
+                        out['keys'][self.field_info(cls, field)[0]] = None
+                        continue
+                    if cls in self.spec.classes and field == '*':
+                        for cn in self.spec.mro(cls):
+                            for fld in self.spec.classes[cn].fields:
+                                out['keys'][(cn, fld)] = None
+                        continue
                     for cname, d in self.spec.classes.items():
                         if field in d.fields:
                             out['keys'][(cname, field)] = None
